@@ -204,7 +204,8 @@ def _random_op(rng, w):
         mid = rng.choice(['Water', 'Water', 'Ethanol']) if by_id else 'Water'
         dry = r.F_mass - r.imass[mid]
         need = dry * mc / (1 - mc)
-        enough = bool(need <= r.imass[mid] + p.imass[mid] + 1e-12 and dry > 0)
+        # strictly sufficient: at exact equality the outcome depends on floating-point rounding
+        enough = bool(need <= (r.imass[mid] + p.imass[mid]) * (1 - 1e-9) and dry > 0)
         return op, dict(ret=ret, perm=perm, water=IDS.index(mid) + 1, by_id=by_id, mc6=int(mc * 1e6), strict=rng.choice([NONE, 1, 0]), enough=enough)
     if op == 'partition':
         feed, top, bot = rng.sample(P, 3)
